@@ -839,6 +839,33 @@ def statslog_cases(run, tools, n, terms, cases):
 WITNESS = [("record", {"id": 0}), ("stream",), ("delitem", 0), ("record", {"id": 1}), ("stream",)]
 
 
+def _r(i, **kw):
+    d = {"id": i}
+    d.update(kw)
+    return ("record", d)
+
+
+# corpus: the histories on which the unchanged tree failed before the fix commits (they must stay repaired),
+# plus hand-written deep ones; (name, chapter tree, operations)
+CORPUS = [
+    ("defect-a slice deletion raised TypeError", {"fit": []},
+     [_r(0, fit={"m": 0}), _r(1, fit={"m": 10}), _r(2, fit={"m": 20}), _r(3, fit={"m": 30}), ("stream",),
+      ("delslice", 0, 2, None), ("stream",), ("select", ["fit"], ["m"]), ("delslice", None, None, -1), ("stream",)]),
+    ("defect-b pop(-1) behind the streamed prefix", {},
+     [_r(0), _r(1), ("stream",), _r(2), ("pop", -1), ("stream",), _r(3), ("stream",), ("pop", -3), ("stream",)]),
+    ("defect-b failing negative pop changed buffindex", {},
+     [_r(0), _r(1), ("stream",), ("pop", -7), ("stream",), _r(2), ("stream",)]),
+    ("defect-c pop left the chapters alone", {"fit": ["a"], "size": []},
+     [_r(0, fit={"a": {"m": 1}, "s": 2}, size={"m": 3}), _r(1, fit={"a": {"m": 4}, "s": 5}, size={"m": 6}),
+      _r(2, fit={"a": {"m": 7}, "s": 8}, size={"m": 9}), ("pop", 0), ("select", ["fit", "a"], ["m", "id"]),
+      ("pop", None), ("stream",), ("delitem", -1), ("print",)]),
+    ("deep tree, slices, pickle", {"fit": ["a", "b"], "age": []},
+     [_r(i, x=i * i, fit={"a": {"m": i}, "b": {"m": -i, "s": 1}}, age={"s": 2 * i}) for i in range(5)] +
+     [("stream",), ("delslice", -1, None, -2), ("pickle", 0), _r(5, fit={"a": {}, "b": {}}, age={}), ("stream",),
+      ("delslice", 3, 0, -1), ("pickle", "deepcopy"), ("print",), ("select", ["fit", "b"], ["s", "x"]), ("stream",)]),
+]
+
+
 def main(run):
     from deap import tools
     run.rule = ("exhaustive: every operation history of length <= 4 (quick) / <= 5 (thorough, reduced alphabet at length 5) over a 15-operation "
@@ -901,6 +928,8 @@ def main(run):
     # ---- random histories ----
     terms, cases = [], []
     hist_case(run, tools, WITNESS, True, "witness", terms, cases, shape={})
+    for name, shape, ops in CORPUS:
+        hist_case(run, tools, ops, True, "corpus: " + name, terms, cases, shape=shape)
     for it in range(run.scale(600, 12000)):
         uniform = rng.random() < 0.85
         ops, shape = rand_history(rng, uniform)
